@@ -33,6 +33,16 @@ def seed(name):
         return fem.Grid(np.array([1.0, 2.0, 4.0]), np.array([1.0, 2.0])), {"extent": 3 * 1 * SC ** 2}
     if name == "Grid3":
         return fem.Grid(np.array([0.0, 1.0, 3.0]), np.array([0.0, 2.0]), np.array([0.0, 1.0])), {"extent": 3 * 2 * 1 * SC ** 3}
+    if name == "Trapezoid":        # quads with non-parallel opposite edges (width tapers from 2 to 1 over the height)
+        m = fem.Rectangle(a=(1, 1), b=(5, 3), n=(3, 2))
+        p = m.points.copy()
+        p[:, 0] = 1 + (p[:, 0] - 1) * (1 - (p[:, 1] - 1) * 0.25)
+        return fem.Mesh(p, m.cells, m.cell_type), {"extent": 6 * SC ** 2}
+    if name == "TrapezoidPrism":   # planar-faced hexahedra whose edges along the second natural direction are not parallel
+        m = fem.Cube(a=(0, 0, 0), b=(4, 2, 2), n=(3, 2, 2))
+        p = m.points.copy()
+        p[:, 0] = p[:, 0] * (1 - p[:, 1] * 0.25)
+        return fem.Mesh(p, m.cells, m.cell_type), {"extent": 12 * SC ** 3}
     raise ValueError(name)
 
 
